@@ -202,7 +202,7 @@ struct Encoding<std::array<T, Length>, EnableIfIntegral<T>>
     else if (size != Length * sizeof(T))
       return ErrorStatus::InvalidContainerLength;
 
-    return reader->Read(&(*value)[0], &(*value)[Length]);
+    return reader->Read(value->data(), value->data() + Length);
   }
 };
 
